@@ -50,7 +50,7 @@ type RunParams struct {
 	Query       string `json:"query"` // via http: raw query string
 	// environment
 	PubMode    string            `json:"pub_mode"`    // ok | fail | slow
-	DNS        map[string]string `json:"dns"`         // addr -> "name1,name2" | "!err" | "~slow:name" | "" (empty list)
+	DNS        wire.StrMap       `json:"dns"`         // addr -> "name1,name2" | "!err" | "~slow:name" | "" (empty list)
 	ListenPort int               `json:"listen_port"` // harness TCP listener on the target (SACK capability); 0 = none
 }
 
@@ -150,7 +150,7 @@ func runRun(t *testing.T, s *Scenario) (evs []wire.Event) {
 			"min", rp.MinTTL, "max", rp.MaxTTL, "timeout_us", int64(rp.TimeoutMs)*1000, "delay_us", int64(rp.DelayMs)*1000, "poll_us", 100000,
 			"target", rp.Hostname, "port", rp.Port, "cancel_us", s.CancelUs, "filter", s.Script.Filter,
 			"protocol", rp.Protocol, "tcp_method", rp.TCPMethod, "queries", rp.Queries, "e2e", rp.E2E, "reverse_dns", rp.ReverseDNS,
-			"expect", expectOf(s), "expect20", expect20Of(s), "public_ip", rp.PublicIP, "pub_mode", rp.PubMode, "skip_private", rp.SkipPrivate, "query", rp.Query, "want_v6", rp.WantV6, "paris", rp.Paris)
+			"expect", expectOf(s), "expect20", expect20Of(s), "expect17", expect17Of(s), "public_ip", rp.PublicIP, "pub_mode", rp.PubMode, "skip_private", rp.SkipPrivate, "query", rp.Query, "want_v6", rp.WantV6, "paris", rp.Paris)
 		ctx, cancel := context.WithCancel(context.Background())
 		defer cancel()
 		if s.CancelUs > 0 {
@@ -278,6 +278,13 @@ func expect20Of(s *Scenario) any {
 		return e
 	}
 	return map[string]any{"out": "none", "dialed": false, "notsup": false, "fallback": false, "method": "", "cap": "", "fault": ""}
+}
+
+func expect17Of(s *Scenario) any {
+	if e, ok := s.Extra["expect17"]; ok {
+		return e
+	}
+	return map[string]any{"skip": false, "rdns": false, "routers": []string{}, "private": []bool{}}
 }
 
 func truncate(s string, n int) string {
